@@ -2,7 +2,9 @@
 /venv on JSON requests from stdin ({"op": ..., "cases": [...]}) and prints {"out": [...]}.
 
 ops
-  lex        case = source string            -> {"b": {"toks": [[kind, value]...], "err": str|None}, "s": {...}}
+  (lex / render_b / diff cases may carry "opts": keyword arguments of Environment -- lstrip_blocks, trim_blocks,
+   keep_trailing_newline, delimiters, line statement / comment prefixes -- applied to BOTH engines)
+  lex        case = source string | {"src", "opts"} -> {"b": {"toks": [[kind, value]...], "err": str|None}, "s": {...}}
   lineprefix case = [s, prefix]              -> {"ok": text} | {"err": class}      (bundled filters.do_lineprefix)
   render_b   case = {"templates", "main", "ctx"} -> {"ok": text} | {"err": class}  (bundled plain Environment + DictLoader)
   diff       case = {"templates", "main", "ctx"} -> {"b": {...}, "s": {...}}        (both plain Environments)
@@ -35,7 +37,7 @@ def main():
 
     def render(envcls, loadercls, c):
         try:
-            env = envcls(loader=loadercls(c['templates']))
+            env = envcls(loader=loadercls(c['templates']), **c.get('opts', {}))
             return {'ok': env.get_template(c['main']).render(**c['ctx'])}
         except RecursionError:
             return {'err': 'RecursionError'}
@@ -45,9 +47,9 @@ def main():
     if op == 'lex':
         from nunavut.jinja.jinja2 import lexer as BL
         from jinja2 import lexer as SL
-        be, se = B.Environment(), S.Environment()
-        for src in cases:
-            outs.append({'b': lex_one(be, BL, src), 's': lex_one(se, SL, src)})
+        for c in cases:
+            src, opts = (c, {}) if isinstance(c, str) else (c['src'], c.get('opts', {}))
+            outs.append({'b': lex_one(B.Environment(**opts), BL, src), 's': lex_one(S.Environment(**opts), SL, src)})
     elif op == 'lineprefix':
         from nunavut.jinja.jinja2.filters import do_lineprefix
         for s, p in cases:
